@@ -76,7 +76,8 @@ def unit_parseinput(twin=False):
         if not [e for e in s.events if e.name == "loop_exit" and e.args[0] is tm.num(LP["search"], "I")]:
             n["immediate"] += 1
             U.discharge_valid(r, "immediate.only_a_line_without_a_number_skips_the_store", hy, tm.eq(cur, ZI))
-            ok(r, "immediate.program_store_loop_stack_and_DATA_pointer_untouched", not cl and not rd and not evs(s, "PHRQ_free") and not evs(s, "disposetokens") and not [k for k in s.heap if k[0] == "f" and k[1] in ("linebase", "next", "num", "txt") and writes(s, k)], "", kind="frame")
+            # (loop records left by an earlier un-numbered line point into its released tokens: dropping them here is what C08 demands; nothing else of the interpreter state changes)
+            ok(r, "immediate.program_store_and_DATA_pointer_untouched(only_stale_loop_records_may_be_dropped)", len(cl) <= 1 and not rd and not evs(s, "PHRQ_free") and not evs(s, "disposetokens") and not [k for k in s.heap if k[0] == "f" and k[1] in ("linebase", "next", "num", "txt") and writes(s, k)], "", kind="frame")
             continue
         U.discharge_valid(r, "stored.only_a_line_with_a_number", hy, tm.not_(tm.eq(cur, ZI)))
         l, l0 = exit_value(s, LP["search"], "l"), exit_value(s, LP["search"], "l0")
